@@ -259,6 +259,8 @@ class Program:
             self.relocated = relocate_moved_definitions({m.name: m.tree for m in self.modules.values()})
             from .relocate import reattach_static_aliases
             self.relocated += reattach_static_aliases({m.name: m.tree for m in self.modules.values()})
+            from .normalize import drop_observability
+            drop_observability({m.name: m.tree for m in self.modules.values()})
             from .normalize import canonical_numpy_spellings
             canonical_numpy_spellings({m.name: m.tree for m in self.modules.values()})
             self.renamed_parameters = restore_parameter_names({m.name: m.tree for m in self.modules.values()})
